@@ -149,3 +149,28 @@ Proof.
   revert s. induction l as [|x t IH]; intros s H; cbn; [reflexivity|].
   rewrite (H s x (or_introl eq_refl)). destruct (g s x); [apply IH; intros; apply H; right; assumption|reflexivity].
 Qed.
+
+Lemma NoDup_app_intro {A} (l1 l2 : list A) :
+  NoDup l1 -> NoDup l2 -> (forall x, In x l1 -> In x l2 -> False) -> NoDup (l1 ++ l2).
+Proof.
+  induction l1 as [|a t IH]; intros H1 H2 Hd; cbn; [exact H2|].
+  inversion H1; subst. constructor.
+  - intros Hin. apply in_app_or in Hin as [Hin|Hin]; [contradiction|]. apply (Hd a); [left; reflexivity|exact Hin].
+  - apply IH; auto. intros x Hx1 Hx2. apply (Hd x); [right; exact Hx1|exact Hx2].
+Qed.
+
+Lemma find_app {A} (p : A -> bool) l1 l2 :
+  find p (l1 ++ l2) = match find p l1 with Some x => Some x | None => find p l2 end.
+Proof. induction l1 as [|a t IH]; cbn; [reflexivity|]. destruct (p a); [reflexivity|exact IH]. Qed.
+
+Lemma filter_app' {A} (p : A -> bool) l1 l2 : filter p (l1 ++ l2) = filter p l1 ++ filter p l2.
+Proof. induction l1 as [|a t IH]; cbn; [reflexivity|]. destruct (p a); cbn; rewrite IH; reflexivity. Qed.
+
+Lemma NoDup_app_inv {A} (l1 l2 : list A) :
+  NoDup (l1 ++ l2) -> NoDup l1 /\ NoDup l2 /\ (forall x, In x l1 -> In x l2 -> False).
+Proof.
+  induction l1 as [|a t IH]; cbn; intros H; [split; [constructor|split; [exact H|intros x []]]|].
+  inversion H; subst. destruct (IH H3) as (I1 & I2 & I3). split; [|split; [exact I2|]].
+  - constructor; [|exact I1]. intros Hin. apply H2. apply in_or_app. left. exact Hin.
+  - intros x [<-|Hx] Hx2; [apply H2; apply in_or_app; right; exact Hx2|eapply I3; eauto].
+Qed.
